@@ -250,7 +250,8 @@ EXPR_WRAPPERS = {
     ('logic_var.rs::make_logic_var', 'let the_chars: Vec<_> = trimmed.chars().collect();'): 'let the_chars: Vec<char> = str_to_chars(&(trimmed));',
     # String += &str has no usable Verus specification (AddAssignSpec cannot be implemented for String);
     # format!("{}", term) is Display, kept uninterpreted (spec disp)
-    ('built_in_join.rs::evaluate_join', 'let s = format!("{}", term);'): 'let s = disp_term(&term);',
+    ('built_in_join.rs::evaluate_join', 'format!("{}", term)'): 'disp_term(&term)',
+    ('built_in_join.rs::evaluate_join', 'format!("{}", ground_term)'): 'disp_term(ground_term)',
     ('built_in_join.rs::evaluate_join', 'out += &format!(" {}", &s);'): 'str_append_spaced(&mut out, &s);',
     ('built_in_join.rs::evaluate_join', 'out += &s;'): 'str_append(&mut out, &s);',
     # atom!(out) is Unifiable::Atom(out.to_string()); ToString for String is the blanket impl over Display (no specification possible)
